@@ -52,6 +52,8 @@ type c02Call struct {
 	Code int       `json:"code,omitempty"` // grpc code of "err"
 	PV   int       `json:"pv,omitempty"`   // kind of the panic value of "panic", see c02Panic
 	EV   int       `json:"ev,omitempty"`   // kind of the error value of "err", see c02ErrKinds (0: a status error with Code)
+	CC   int       `json:"cc,omitempty"`   // > 0: the caller cancels through context.WithCancelCause with a cause of this kind (c02CauseKinds)
+	DC   int       `json:"dc,omitempty"`   // > 0: the caller's deadline comes from context.WithTimeoutCause / WithDeadlineCause with a cause of this kind
 }
 
 type c02Case struct {
@@ -122,7 +124,8 @@ func c02Valid(c c02Case) bool {
 	}
 	risky := make([]int, c.NM)
 	for _, q := range c.Calls {
-		if q.M < 0 || q.M >= c.NM || q.At < 0 {
+		if q.M < 0 || q.M >= c.NM || q.At < 0 || q.CC < 0 || q.CC >= len(c02CauseKinds) || q.DC < 0 || q.DC >= len(c02CauseKinds) ||
+			(q.CC > 0 && q.Cn < 0) || (q.DC > 0 && q.DL < 0) {
 			return false
 		}
 		for _, s := range q.P {
@@ -153,6 +156,37 @@ func c02Valid(c c02Case) bool {
 		}
 	}
 	return true
+}
+
+// Caller contexts that end WITH A CAUSE (Go 1.20+: context.WithCancelCause, WithTimeoutCause,
+// WithDeadlineCause). ctx.Err() of such a context is still context.Canceled resp.
+// context.DeadlineExceeded — the statement's "client cancel" / "deadline" — while
+// context.Cause(ctx) is whatever the caller passed. Kind 0: the plain constructors.
+var c02CauseKinds = []string{"none", "custom-error", "sentinel-io.EOF", "wrapped-context.DeadlineExceeded", "wrapped-context.Canceled",
+	"status-like-error", "nil-cause", "context.DeadlineExceeded-itself", "context.Canceled-itself"}
+
+type c02CauseErr struct{ msg string }
+
+func (e *c02CauseErr) Error() string { return e.msg }
+
+func c02Cause(kind, n int) error {
+	switch kind {
+	case 1:
+		return errors.New(fmt.Sprintf("c02cause: upstream gave up, %d", n))
+	case 2:
+		return io.EOF
+	case 3:
+		return fmt.Errorf("c02cause %d: %w", n, context.DeadlineExceeded)
+	case 4:
+		return fmt.Errorf("c02cause %d: %w", n, context.Canceled)
+	case 5:
+		return &c02CauseErr{msg: fmt.Sprintf("c02cause: rpc error: code = NotFound desc = %d", n)}
+	case 7:
+		return context.DeadlineExceeded // as the cause of a CANCEL it must not turn the result into a deadline
+	case 8:
+		return context.Canceled // as the cause of a DEADLINE it must not turn the result into a cancel
+	}
+	return nil // kind 6: cancel(nil) / WithTimeoutCause(.., nil)
 }
 
 var c02PanicKinds = []string{"string", "errors.New", "nil-map-write", "nil-deref", "index-out-of-range",
@@ -347,13 +381,27 @@ func c02Run(t *testing.T, c c02Case) (v kit.Verdict) {
 				ctx := context.Background()
 				if q.DL >= 0 {
 					var cancel context.CancelFunc
-					ctx, cancel = context.WithTimeout(ctx, time.Duration(q.DL)*c02Tick)
+					switch {
+					case q.DC == 0:
+						ctx, cancel = context.WithTimeout(ctx, time.Duration(q.DL)*c02Tick)
+					case i%2 == 0:
+						ctx, cancel = context.WithTimeoutCause(ctx, time.Duration(q.DL)*c02Tick, c02Cause(q.DC, i))
+					default:
+						ctx, cancel = context.WithDeadlineCause(ctx, time.Now().Add(time.Duration(q.DL)*c02Tick), c02Cause(q.DC, i))
+					}
 					defer cancel()
 				}
-				if q.Cn >= 0 {
+				if q.Cn >= 0 && q.CC == 0 {
 					var cancel context.CancelFunc
 					ctx, cancel = context.WithCancel(ctx)
 					tm := time.AfterFunc(time.Duration(q.Cn)*c02Tick, cancel)
+					defer tm.Stop()
+				}
+				if q.Cn >= 0 && q.CC > 0 {
+					var cancel context.CancelCauseFunc
+					ctx, cancel = context.WithCancelCause(ctx)
+					cause := c02Cause(q.CC, i)
+					tm := time.AfterFunc(time.Duration(q.Cn)*c02Tick, func() { cancel(cause) })
 					defer tm.Stop()
 				}
 				final := func(ctx context.Context, req interface{}) (interface{}, error) {
@@ -487,6 +535,15 @@ func c02Judge(c c02Case, plans []c02Plan, arr []int64, resps []*string, errs []e
 				cls["error-value:"+c02ErrKinds[q.EV]] = true
 			}
 		}
+		if q.CC > 0 {
+			cls["caller-cancel-with-cause:"+c02CauseKinds[q.CC]] = true
+		}
+		if q.DC > 0 {
+			cls["caller-deadline-with-cause:"+c02CauseKinds[q.DC]] = true
+		}
+		if p.d >= 0 && p.f >= p.d && ((q.CC > 0 && q.Cn == p.d) || (q.DC > 0 && q.DL == p.d)) {
+			cls["context-with-cause-ends-the-call"] = true
+		}
 		if len(p.kinds) == 2 {
 			cls["cancel=deadline"] = true
 		} else if len(p.kinds) == 1 && p.kinds[0] == codes.Canceled {
@@ -577,6 +634,12 @@ func c02Gen(rt *rapid.T) c02Case {
 		if rapid.IntRange(0, 4).Draw(rt, "cdl") == 0 {
 			q.DL = c02Rel(rt, d, 0, "dl")
 		}
+		if q.Cn >= 0 && rapid.Bool().Draw(rt, "cancelcause") {
+			q.CC = rapid.IntRange(1, len(c02CauseKinds)-1).Draw(rt, "cc")
+		}
+		if q.DL >= 0 && rapid.Bool().Draw(rt, "deadlinecause") {
+			q.DC = rapid.IntRange(1, len(c02CauseKinds)-1).Draw(rt, "dc")
+		}
 		scale := d
 		if q.DL > 0 && q.DL < scale {
 			scale = q.DL
@@ -623,7 +686,7 @@ func c02Gen(rt *rapid.T) c02Case {
 		if c02MakePlan(c, q).risky {
 			if benign {
 				// can only be a deadline that is already due at arrival: drop caller deadline/cancel
-				q.Cn, q.DL = -1, -1
+				q.Cn, q.DL, q.CC, q.DC = -1, -1, 0, 0
 			}
 			if c02MakePlan(c, q).risky {
 				risky[q.M]++
